@@ -23,7 +23,7 @@ class World(S.WorldComponent):
     theorems = ["dcep_roundtrip", "ids_disjoint", "ready_forward", "buffered_exact"]
     mix = [("lifecycle", False, 4), ("lifecycle", True, 1), ("mixed-pr", False, 1)]
     quick = (36, 260)
-    thorough = (600, 500)
+    thorough = (300, 500)
     oracles = [S.oracle_no_crash, S.oracle_c13, S.oracle_c01, S.oracle_c06]
 
     def corpus(self):
